@@ -51,6 +51,46 @@ def sign_cases(M, signed):
     return MatVal(M.r, M.c, [[deep_subs(p, f) if p.t else p for p in row] for row in M.cells], M.kind)
 
 
+def headroom_identity(conds, C1, C2, fresh, params):
+    """For every order comparison inside the unresolved conditions: is the tested quantity +-C1 or +-C2 as a FUNCTION?
+    -> ("different", message, fact) when some tested quantity differs from all four on a cell with a rational witness,
+       ("same"/"undecided", message, None) otherwise."""
+    from ..cells import piecewise_compare
+    from ..poly import all_atoms as _aa
+    msyms = [v.single_atom() for k, v in fresh.items() if v.single_atom().symname.startswith("Msat")]
+    others = [v.single_atom() for k, v in fresh.items() if not v.single_atom().symname.startswith("Msat")] + [p_.s().single_atom() for p_ in params]
+    tested = []
+    for c in conds:
+        for a in _aa(c):
+            if a.kind in ("lt", "le") and isinstance(a.key[0], Poly):
+                # headroom tests are sign tests (one side is exactly 0) of a quantity that involves the thrust level; other
+                # comparisons (the 1e-5 threshold on the largest moment, ...) are not candidates
+                if a.key[0].t and a.key[1].t:
+                    continue
+                d = a.key[1] - a.key[0]
+                tsat = [x for x in others if x.symname.startswith("Tsat")]
+                if d not in tested and any(x.kind in ("fmax", "fmin", "fabs") for x in _aa(d)) and any(x in tsat for x in _aa(d)):
+                    tested.append(d)
+    notes = []
+    for d in tested:
+        matches = False
+        wit = None
+        for name, ref in (("C1", C1), ("-C1", -C1), ("C2", C2), ("-C2", -C2)):
+            r = piecewise_compare(d, ref, msyms, others)
+            if r[0] == "different":
+                wit = wit or (name, r)
+                continue
+            matches = True
+            notes.append("tested quantity %s: %s against %s" % (short(d, 50), r[0], name))
+            break
+        if not matches and wit is not None:
+            name, r = wit
+            return ("different", "the saturation logic tests the sign of %s, which is neither the upper headroom C1 = F_max - max(F_sum) nor the lower headroom C2 = min(F_sum): "
+                    "on the cell of the moment shares M_sat = %s it equals %s while %s there is %s (the moment shares of a 3-axis demand are not symmetric: max|m| != max m)"
+                    % (short(d, 70), r[1], short(r[2], 70), name, short(r[3], 70)), {"witness": r[1]})
+    return ("undecided", "; ".join(notes) or "no order comparison of piecewise-linear quantities found", None)
+
+
 def run(w, rep, tier):
     rep.rule("C13.API", "derive_control_allocation resolves; Function control_allocation(F_max, l, Cm, Ct, T, M) -> (omega, Fp_sum, F_moment, F_thrust, M_sat)")
     rep.rule("C13.clamp", "every motor force output is a clamp into [0, F_max] (if_else or fmin/fmax idiom, L7) and omega_i = sqrt(Fp_sum_i / Ct)")
@@ -186,7 +226,14 @@ def run(w, rep, tier):
             left = ite_conditions(Xc)
             inst = "case C1 %s 0, C2 %s 0 (%s): pre-clamp forces = %s" % (names[s1], names[s2], what, "F_moment + F_thrust" if want is Fsum else "F_moment + F_thrust shifted")
             if left:
-                rep.incomplete("C13.cases", inst, "conditions not resolved by the signs of C1 = F_max - max(F_sum), C2 = min(F_sum): %s" % short(left[0], 80), where=W)
+                # a condition that is not literally a sign test of C1 / C2: is the quantity it tests one of them written
+                # differently, or another piecewise-linear function?  (cell decomposition with rational witnesses, sa/cells.py)
+                verdict_h = headroom_identity(left, C1, C2, fresh, [F_max, l, Cm])
+                if verdict_h is not None and verdict_h[0] == "different":
+                    rep.fail("C13.cases", inst, verdict_h[1], where=W, fact=verdict_h[2])
+                else:
+                    rep.incomplete("C13.cases", inst, "conditions not resolved by the signs of C1 = F_max - max(F_sum), C2 = min(F_sum): %s%s" % (
+                        short(left[0], 80), "; " + verdict_h[1] if verdict_h else ""), where=W)
                 continue
             v, d = decide_mat(Xc, want)
             if v == EQUAL:
